@@ -28,6 +28,7 @@ C06(e) ==
   ELSE LET MD == Num(ModelDiff(MapOf(e.mo), MapOf(e.mn)))
        IN (IF e.cbres # "ok" THEN {V("C06", "DiffIter fails on a healthy store")}
            ELSE IF e.cb # MD THEN {V("C06", "DiffIter does not report exactly the differing keys, once each, in order")} ELSE {})
+          \cup (IF e.againcb = "bad" THEN {V("C06", "an entry diff that follows diffs stopped early by their callbacks does not report the same differences")} ELSE {})
           \cup (IF e.curres # "ok" THEN {V("C06", "NextEntry fails on a healthy store")}
                 ELSE IF e.cur # MD THEN {V("C06", "the cursor interface disagrees with the difference of the maps")}
                 ELSE IF ~e.curtail THEN {V("C06", "NextEntry does not keep returning ErrNoMoreDiffs at the end")} ELSE {})
@@ -43,6 +44,8 @@ C07(e) ==
   IF ~e.counted THEN {}
   ELSE IF e.lres # "ok" THEN {V("C07", IF e.big THEN "node diff of two large versions misses, repeats or invents a node" ELSE "DiffLinks fails on a healthy store")}
   ELSE (IF e.sync # "ok" THEN {V("C07", "a store holding the old version plus the added nodes cannot load the new version")} ELSE {})
+       \cup (IF e.againlinks = "bad" THEN {V("C07", "a node diff that follows diffs stopped early by their callbacks does not report the same nodes")} ELSE {})
+       \cup (IF e.faultbad > 0 THEN {V("C07", "a node diff that met one failing Load reports success with nodes missing or added")} ELSE {})
        \cup (IF ~e.terms THEN {} ELSE
              LET A == ToSet(e.added)  R == ToSet(e.removed)  RN == ReachT(e.new)  RO == OldReach(e)
              IN (IF ~((RN \ RO) \subseteq A) THEN {V("C07", "a node only the new version reaches is not reported as added")} ELSE {})
